@@ -9,6 +9,15 @@
         did before;  witness `mutable_default_leaks` for `def renumber(self, node_map={})`.
   The two side conditions are table facts about the source text: Props/C16Tables.lean
   `arguments_not_mutated_through_alias`, `no_mutable_default_arguments`.
+
+  TIE TO THE CODE: `Alias.derive` is executed by the driver (`c16.alias`, with `copies := argAliasMutations.isEmpty`
+  from the generated table) and compared on every run with the time-behaviour flags (causal, dc, ac) of real kept
+  Laplace-domain results before / after as_transfer, as_impedance, as_admittance, as_voltage, as_current, as_expr and of
+  the derived expressions; `Alias.renumberS` / `augmentNodeMap` (an executable model of `renumber()` /
+  `augment_node_map` for wire-free circuits, `mutableDefault := !mutableDefaults.isEmpty`) is executed by `c16.renumber`
+  and compared with the node mapping of real `renumber()` calls made one after the other in one process.
+  `renumber_history_independent` below is about the GENERIC mechanism (any completion function `fill`) and is the
+  definition unfolded once the default is per call -- the content is in the table theorem and in the correspondence.
 -/
 import Lcapy.Proofs.Alias
 set_option linter.unusedVariables false
